@@ -7,6 +7,7 @@ import (
 	"go/token"
 	"go/types"
 	"os"
+	"sort"
 
 	"golang.org/x/tools/go/ssa"
 )
@@ -572,6 +573,8 @@ func (e *Engine) splitInt2(what string, v Value, si scalarInfo, lo, hi int64, no
 		e.sv.Assert(tt.Not(c))
 	}
 	e.sv.Pop()
+	// canonical order (the solver's enumeration order is not stable across workers)
+	sort.Slice(alts[1:], func(i, j int) bool { return alts[1+i].payload < alts[1+j].payload })
 	if len(alts) == 2 && (noOut || e.sv.CheckWith(alts[0].cond) == Unsat) {
 		// exactly one feasible value and no out-of-range alternative: remember
 		// the resolution so that a re-execution of this step reuses it
